@@ -11,6 +11,7 @@ from .c04 import PL3, place
 
 PROPERTY = "C12"
 ENGINE = "E2"
+TECHNIQUE = "bounded-exhaustive enumeration of shapes x placements x wave-vector alphabet x ordered batches vs an independent Fourier transform (signed simplices, divided differences)"
 RULE = (
     "cases = shape (ConvexPolyhedron / Polyhedron over S3 lattice hulls, Polyhedron over VOX 2x2x2 voxel solids, Polygon over P2 in "
     "both orientations and with default/explicit normals, Sphere) x placement x wave-vector alphabet: 0 and +-|q| x {coordinate "
